@@ -10,7 +10,9 @@ import typeguard
 import impl
 import impl_prog
 import jaxtyping
-from common import Rng
+import os
+
+from common import REPO, Rng
 from impl import Duck
 from jaxtyping import Float, TypeCheckError, jaxtyped
 
@@ -706,6 +708,60 @@ def descriptor_cases(out, ck):
                 out.violation("descriptor-illtyped-body-ran", "ill-typed call ran the body", {})
 
 
+def internal_names():
+    """every identifier the wrapper machinery of `_decorator.py` itself uses as a parameter or local name today (read from
+    the source, so a renamed or newly introduced one is picked up), plus the names the synthesised checkers are built from"""
+    import ast
+    import keyword
+
+    with open(os.path.join(REPO, "jaxtyping", "_decorator.py")) as fh:
+        tree = ast.parse(fh.read())
+    names = set()
+    for fn in ast.walk(tree):
+        if isinstance(fn, (ast.FunctionDef, ast.AsyncFunctionDef, ast.Lambda)):
+            a = fn.args
+            names.update(x.arg for x in a.posonlyargs + a.args + a.kwonlyargs)
+            names.update(x.arg for x in (a.vararg, a.kwarg) if x is not None)
+            if not isinstance(fn, ast.Lambda):
+                names.update(n.id for n in ast.walk(fn) if isinstance(n, ast.Name) and isinstance(n.ctx, ast.Store))
+    names |= {"T0", "default0", "ret0", "fn0", "T1", "ret1"}
+    return sorted(n for n in names if n.isidentifier() and not keyword.iskeyword(n) and not n.startswith("__"))
+
+
+def internal_name_cases(out, ck):
+    """a user's parameter may be called anything — in particular what the wrapper's own frames call THEIR parameters and
+    locals: passed positionally, by keyword, and swallowed by `**kwargs`, the decorated function sees the same argument
+    objects, runs once and hands back the body's own result"""
+    tc = CHECKERS[ck]
+    for nm in internal_names():
+        seen = []
+        ns = {"seen": seen}
+        try:
+            exec(f"def f({nm}: int, other: int = 0) -> tuple:\n    seen.append(({nm}, other))\n    return ({nm}, other)\n"
+                 f"def k(*, {nm}: int = 5) -> int:\n    seen.append(({nm},))\n    return {nm}\n"
+                 f"def g(**kw: int) -> dict:\n    seen.append(dict(kw))\n    return kw\n", ns)
+        except SyntaxError:
+            continue
+        try:
+            F, K, G = jaxtyped(typechecker=tc)(ns["f"]), jaxtyped(typechecker=tc)(ns["k"]), jaxtyped(typechecker=tc)(ns["g"])
+        except BaseException as e:  # noqa: BLE001
+            out.violation(f"internal-name:decorate:{nm}", f"decorating a function whose parameter is called `{nm}` raised {type(e).__name__}: {e}", {"internal_name": nm, "checker": ck})
+            continue
+        calls = [("positional", lambda: F(3), (3, 0)), ("keyword", lambda: F(**{nm: 3}), (3, 0)), ("keyword+other", lambda: F(**{nm: 3, "other": 4}), (3, 4)),
+                 ("keyword-only", lambda: K(**{nm: 7}), 7), ("keyword-only default", lambda: K(), 5), ("**kwargs", lambda: G(**{nm: 1, "z": 2}), {nm: 1, "z": 2})]
+        for cname, thunk, want in calls:
+            seen.clear()
+            try:
+                got = thunk()
+            except BaseException as e:  # noqa: BLE001
+                got = f"raised {type(e).__name__}: {e}"[:160]
+            out.case(("internal-name", ck, nm, cname), True, sample={"name": nm, "call": cname, "result": repr(got)[:80]})
+            if got != want or len(seen) != 1:
+                out.violation(f"internal-name:{cname}", f"a well-typed call ({cname}) of a function whose parameter is called `{nm}` ({ck}): result {got!r}, body ran {len(seen)} time(s); "
+                              f"the plain function gives {want!r} and runs once", {"internal_name": nm, "checker": ck})
+                break
+
+
 def property_accessor_cases(out, ck):
     """`jaxtyped` applied to a property OBJECT with every combination of getter / setter / deleter (a gap included:
     getter + deleter, setter only, …): each accessor stays in its own slot, runs once with the same objects, and the
@@ -794,6 +850,7 @@ def run(tier, seed, out, drv, facts):
         string_annotation_cases(out, ck)
         stacked_decorator_cases(out, ck)
         property_accessor_cases(out, ck)
+        internal_name_cases(out, ck)
     for i in range(n):
         sig = gen_sig(rng)
         fname = rng.choice(["fn", "fn", "T0", "ret0", "default0", sig[0]["name"]])
@@ -805,6 +862,9 @@ def run(tier, seed, out, drv, facts):
 
 
 def replay(rep, out, drv, facts):
+    if "internal_name" in rep:
+        internal_name_cases(out, rep["checker"])
+        return
     if "signature" in rep:
         run_sig(out, drv, Rng(0, "replay"), rep["signature"], rep["function_name"], rep["checker"], rep["callable"])
     else:
